@@ -93,6 +93,87 @@ SEEDS = {
               "two faults on one entry: checksum file missing AND shared object damaged in its loaded part"),
     "C20-2": ("C20", "loser of a publishing race checks the wrong file and overwrites the completed entry",
               "two processes building the same uncached form concurrently"),
+    # ---- second round (the seeding agents were told which mechanisms the first round had used) -----------------------------
+    "C01-3": ("C01", "generated code drops the parentheses around products (x/(a*b) emitted as x/a*b)",
+              "a quotient whose divisor is a product after finalize(), or a negative integer power < -1"),
+    "C01-4": ("C01", "constant folding of x - (-y) keeps the minus sign",
+              "a binary minus whose right operand folds to a negation (x - (-1)*y, y/-1)"),
+    "C02-3": ("C02", "scalar form of active_deriv returns a shared module-level result table",
+              "keep the table of one scalar call, make another scalar call with the same degree/numderiv, read the first table again"),
+    "C02-4": ("C02", "BSplineFunc.grid_hessian reads the grid shape from the reversed axis list",
+              "tensor grid with different numbers of points per axis"),
+    "C03-3": ("C03", "HMesh.function_children memoised per index, forgetting the axis",
+              "anisotropic space (different degree or span count per direction) and interlevel blocks"),
+    "C03-4": ("C03", "HDiscretization.assemble_matrix no longer restores the truncate flag when the nested assembly raises",
+              "THB space, a first assemble_matrix() that raises, then a retry on the same object"),
+    "C04-3": ("C04", "HSpace.refine activates candidates by looking at the corner cells of their support only",
+              "degree >= 3 and a non-convex refinement region (gap narrower than a support)"),
+    "C04-4": ("C04", "truncate_one_level returns the identity when level k has no active functions",
+              "an intermediate level without active functions while coarser functions overlap level k+1"),
+    "C05-3": ("C05", "HMesh.add_level shares 1D prolongators under a key that forgets the knots",
+              "dim >= 2, directions with equal degree and dof count but different breakpoints"),
+    "C05-4": ("C05", "HSpace.prolongate_to stops as soon as nothing lands on active functions of a level",
+              "fine space >= 2 levels deeper with an intermediate level that has no active functions in the replaced region"),
+    "C06-3": ("C06", "swapped loop bounds in vector-component substitution",
+              "bilinear form whose trial and test functions have different numbers of components"),
+    "C06-4": ("C06", "ConstExpr.is_constant uses np.isclose",
+              "literal coefficients within 1e-5 of +-1 or below 1e-8 in magnitude"),
+    "C07-3": ("C07", "_BoundaryFunction.eval inserts the fixed coordinate one slot too far",
+              "boundary of a UserFunction / restricted spline, single-point evaluation, boundary axis != 0"),
+    "C07-4": ("C07", "_prepare_for_outer pads the value shape on the wrong side",
+              "outer_sum/outer_product of factors with non-scalar value shapes of different rank"),
+    "C08-3": ("C08", "transpose-index cache keyed on (rows, nnz) only",
+              "symmetric vector-valued assembly with two different 1D sparsity patterns of equal size and nnz in one process"),
+    "C08-4": ("C08", "symmetric vector kernel's skip test checks only the preceding level",
+              "3D vector-valued bilinear form with symmetric=True"),
+    "C09-3": ("C09", "make_iterated_quadrature memoised without copying; the weighted 1D assembler scales the weights in place",
+              "a 1D assembly with weightfunc followed by any assembly on the same mesh and nqp in the same process"),
+    "C09-4": ("C09", "inner_products uses det J instead of |det J|",
+              "orientation-reversing geometry"),
+    "C10-3": ("C10", "Multipatch.compute_dirichlet_bcs reuses the previous patch's index map on a cache hit",
+              "condition list in which a patch re-appears after a different patch"),
+    "C10-4": ("C10", "compute_initial_condition_01 stores the two coefficient rows in swapped slices on the upper face",
+              "bdspec (time axis, 1)"),
+    "C11-3": ("C11", "gauss_seidel treats a CSC matrix as CSR of the transpose",
+              "non-symmetric matrix passed in CSC format"),
+    "C11-4": ("C11", "iterative_solve drops active_dofs from the starting residual when x0 is None",
+              "x0=None, active_dofs given, right-hand side with weight on the excluded dofs"),
+    "C12-3": ("C12", "dirk_step decides stiff accuracy from row -2 of the tableau",
+              "user tableau with an embedded row that is not stiffly accurate"),
+    "C12-4": ("C12", "constant-step driver appends the time before the step is attempted",
+              "a constant-step run in which Newton fails in some step"),
+    "C13-3": ("C13", "VForm.hash combines the term hashes as a frozenset (multiplicity lost)",
+              "the same term added twice vs once, both requested in one process (or one of them predefined)"),
+    "C13-4": ("C13", "VForm.add only refuses modification once the form is finalized, hash() stays memoised",
+              "add, hash(), add, compile on one VForm"),
+    "C14-3": ("C14", "Multipatch.compute_dirichlet_bcs reuses the previous patch's index map on a cache hit",
+              "condition list in which a patch re-appears after a different patch"),
+    "C14-4": ("C14", "join_boundaries computes the second face's dofs in the first patch's space",
+              "patches with different tensor-product spaces, second face not 'bottom'"),
+    "C15-3": ("C15", "MLStructure.nonzero returns views into the structure's pattern for one level",
+              "L == 1 and a caller that shifts the returned arrays in place, then uses the structure again"),
+    "C15-4": ("C15", "generic MLMatrix._matvec caches its CSR matrix and the data setter never invalidates it",
+              "L in {1, >=4}: product, assign new data, product again"),
+    "C16-3": ("C16", "make_solver factorises with overwrite_a=True",
+              "column-major dense matrix, spd=False, the matrix object used again (second solver, Kronecker solver with the same factor twice)"),
+    "C16-4": ("C16", "BaseBlockOperator._adjoint keeps the block positions",
+              ".H / rmatvec of a block operator with an off-diagonal block"),
+    "C17-3": ("C17", "project_L2 drops f_physical on the hierarchical path",
+              "HSpace, non-identity geometry and f_physical=True together"),
+    "C17-4": ("C17", "absolute tolerance 1e-12 in the CG solve of the geometry branch of project_L2",
+              "non-affine geometry on a small physical domain (|det J| << 1)"),
+    "C18-3": ("C18", "aca3d_update takes the innermost loop bound from the wrong axis",
+              "3D tensor with shape[2] != shape[1]"),
+    "C18-4": ("C18", "TuckerTensor.squeeze squeezes all singleton core axes",
+              "Tucker tensor with multilinear rank 1 on a kept mode, scalar index on another mode"),
+    "C19-3": ("C19", "make_knots no longer pins the last breakpoint to b",
+              "particular (a, b, n), e.g. [0,1] with n = 49, 98, 103"),
+    "C19-4": ("C19", "Spline.derivative() caches its result",
+              "derivative(), change the coefficients, derivative() again on the same object"),
+    "C20-3": ("C20", "stale-build cleanup removes the build directories of concurrent live builds",
+              "a damaged cache entry and two processes rebuilding it concurrently"),
+    "C20-4": ("C20", "checksum computed through mmap (fails on empty files with ValueError)",
+              "zero-length shared object whose checksum file still exists"),
 }
 
 
